@@ -443,6 +443,25 @@ def ioniceSetPy (cfg : ICfg) (cls : Int) (value : Option Int) : PyOut :=
   else if !(inRange cfg.pyClassGuard cls) then .valueError
   else ioprioSetExt cfg (.int 1) (.int cls) (.int v)
 
+/-! ## §10 NIC speed: `(ecmd->speed_hi << 16) | ecmd->speed` (psutil/arch/linux/net.c) -/
+
+structure ECfg where
+  /-- `speed_hi` (a `__u16`, promoted to `int`) is converted to a 32-bit unsigned type before the shift -/
+  castUnsigned : Bool
+
+inductive SpeedOut
+  | ub                       -- `speed_hi << 16` not representable in `int`
+  | speed (mbps : Int)       -- the `speed` slot of net_if_duplex_speed()
+  deriving DecidableEq, Repr
+
+/-- `psutil_ethtool_cmd_speed` followed by the `SPEED_UNKNOWN` / `> INT_MAX` test, for the two
+    16-bit halves the driver reported -/
+def ethSpeed (cfg : ECfg) (hi lo : Nat) : SpeedOut :=
+  if !cfg.castUnsigned && decide ((hi : Int) * 65536 > INT_MAX) then .ub
+  else
+    let u := (hi * 65536 ||| lo) % 4294967296
+    if u = 4294967295 ∨ (u : Int) > INT_MAX then .speed 0 else .speed u
+
 /-! ## §9 net_if_flags: bit → name -/
 
 /-- names of the bits of `flags` that are set, in table order (`ifr_flags & mask`) -/
